@@ -1279,6 +1279,16 @@ machine, halted/EILAST/compression/unknown/AY/mouse flags, receiver halt/prefix/
             rep.count("receiver_kind", "unrelated");
             random_recv(&mut r, recv_m128)
         };
+        let mut recv = recv;
+        if let FileSpec::Szx(f) = &file {
+            if f.st.halt && r.bool() {
+                // the receiver's own memory holds a HALT just in front of where the file's PC points (and none at it):
+                // what the loaded machine does must come from the file, not from what was in memory before
+                let pc = f.st.pc();
+                recv.poke(pc.wrapping_sub(1), 0x76);
+                recv.poke(pc, 0x00);
+            }
+        }
         let case = Case { file, recv };
         rep.count("format", case.kind());
         rep.count("machines", format!("file {} into {}", if case.file_m128() { "128k" } else { "48k" }, if case.recv.m128 { "128k" } else { "48k" }));
